@@ -538,7 +538,7 @@ func writeEvidence(env *Env, s *Summary, distinct, nviol int, wall float64) {
 	cov := map[string]any{
 		"evaluations":         s.Evaluations,
 		"distinct_nontrivial": distinct,
-		"rule":                p.Rule,
+		"rule":                p.Rule + round8RuleNote(p.ID),
 		"samples":             s.Samples,
 		"held":                s.Held,
 		"known_finding_cases": s.Known,
